@@ -180,6 +180,34 @@ def cage_salt(rng):
     return AM(zs, edges, {i: m for i, m in mass.items() if zs[i] == 6}, {}, "cage-salt:" + name)
 
 
+def decalin(): return 10, [(0, 1), (1, 2), (2, 3), (3, 4), (4, 5), (5, 0), (4, 6), (6, 7), (7, 8), (8, 9), (9, 5)]
+def bicyclopentyl(): return 10, [(0, 1), (1, 2), (2, 3), (3, 4), (4, 0), (5, 6), (6, 7), (7, 8), (8, 9), (9, 5), (0, 5)]
+def spirodecane(): return 10, [(0, 1), (1, 2), (2, 3), (3, 4), (4, 0), (0, 5), (5, 6), (6, 7), (7, 8), (8, 9), (9, 0)]
+
+
+def wl_twins_mixture(rng):
+    """several components of equal size, two of them non-isomorphic but indistinguishable by colour refinement
+    (decalin / bicyclopentyl: every atom sees the same neighbour-degree pattern round by round), plus others; atoms of the
+    components interleaved in a random order"""
+    comps = [decalin(), bicyclopentyl()]
+    if rng.random() < .8:
+        comps.append(spirodecane())
+    if rng.random() < .3:
+        comps.append(rng.choice([decalin(), bicyclopentyl()]))
+    rng.shuffle(comps)
+    zs, edges = [], []
+    for n, e in comps:
+        off = len(zs)
+        zs += [6] * n
+        edges += [(u + off, v + off) for u, v in e]
+    am = AM(zs, edges, {}, {}, "wl-twins")
+    p = list(range(len(zs)))
+    rng.shuffle(p)                                 # interleave the components' atoms
+    am = apply_perm(am, p) if rng.random() < .7 else am
+    am.family = "wl-twins"
+    return am
+
+
 def tree_like(rng, n):
     zs = [rng.choice([6, 6, 6, 7, 8]) for _ in range(n)]
     edges = [(rng.randrange(i), i) for i in range(1, n)]
@@ -296,3 +324,5 @@ def standard_stream(rng, tier):
         yield tree_like(rng, rng.randint(2, 25 if quick else 80))
     for _ in range(12 if quick else 100):
         yield cage_salt(rng)
+    for _ in range(6 if quick else 40):
+        yield wl_twins_mixture(rng)
